@@ -391,7 +391,7 @@ def c05(tier, rng):
                 s.poll(i), s.deliver(M.pubcomp(pid)), s.poll(i)
             s.deliver(M.pingresp()), s.poll(other)
             out.append(case("crosstype-%s-%s" % (kind, wrong), s.script(), ["crosstype"]))
-    return out + r6("C05")
+    return out + r6("C05") + r7("C05")
 
 
 # ---- C06 ------------------------------------------------------------------------------------------
@@ -515,7 +515,7 @@ def c06(tier, rng):
     c6 = case("blocked-disc", s.script(), ["blocked-writer"])
     c6["model"] = False
     out.append(c6)
-    return out + r6("C06")
+    return out + r6("C06") + r7("C06")
 
 
 # ---- C07 ------------------------------------------------------------------------------------------
@@ -665,7 +665,7 @@ def c07(tier, rng):
         out.append(walk(rng, rng.choice([30, 60]) if tier == "quick" else rng.choice([60, 250]),
                         {"kinds": ["sub", "sub", "unsub", "pub1", "ping"], "streams": True, "drops": k % 2 == 0},
                         "walk%d" % k))
-    return out + r6("C07")
+    return out + r6("C07") + r7("C07")
 
 
 # ---- C08 ------------------------------------------------------------------------------------------
@@ -757,7 +757,7 @@ def c08(tier, rng):
         out.append(walk(rng, 40 if tier == "quick" else 150,
                         {"kinds": ["sub", "pub1", "ping"], "streams": True, "inbound": True, "drops": True,
                          "redeliver": True}, "walk%d" % k))
-    return out + r6("C08")
+    return out + r6("C08") + r7("C08")
 
 
 # ---- C09 ------------------------------------------------------------------------------------------
@@ -870,7 +870,7 @@ def c09(tier, rng):
         for _ in range(9):
             st.ev("pollstream %d" % a)
         out.append(case("inbound-beyond-R%d" % rm, st.script(), ["rm-inbound"]))
-    return out + r6("C09")
+    return out + r6("C09") + r7("C09")
 
 
 # ---- C10 ------------------------------------------------------------------------------------------
@@ -1031,7 +1031,7 @@ def c10(tier, rng):
         out.append(walk(rng, rng.choice([30, 60]) if tier == "quick" else rng.choice([80, 300]),
                         {"kinds": ["pub0", "pub1", "pub2", "pub1", "pub2", "ping"], "fail": 0.35,
                          "rmax": rng.choice([1, 2, 3, 5])}, "walk%d" % k))
-    return out + r6("C10")
+    return out + r6("C10") + r7("C10")
 
 
 # ---- C11 ------------------------------------------------------------------------------------------
@@ -1142,7 +1142,7 @@ def c11(tier, rng):
     c = case("subscribes-65600", S().script() + " ; spinsub 65600", ["subid-wrap16"], release=False)
     c["model"] = False
     out.append(c)
-    return out + r6("C11")
+    return out + r6("C11") + r7("C11")
 
 
 # ---- C12 ------------------------------------------------------------------------------------------
@@ -1197,7 +1197,7 @@ def c12(tier, rng):
                     out.append(case("c%dw" % n, wm + " ; " + s.script(), [kind, "partial-writes"], L=L, M=Mx, kind=kind))
                 n += 1
     out += c12_extra()
-    return out + r6("C12")
+    return out + r6("C12") + r7("C12")
 
 
 # ---- C13 ------------------------------------------------------------------------------------------
@@ -1478,7 +1478,7 @@ def c13(tier, rng):
         s = mk()
         s.deliver(M.pingresp()), s.deliver(M.puback(77)), s.deliver(M.publish(b"z", b"z"))
         out.append(case("nocause-" + name, s.script(), ["nocause"]))
-    return out + r6("C13")
+    return out + r6("C13") + r7("C13")
 
 
 # ---- C14 ------------------------------------------------------------------------------------------
@@ -1568,7 +1568,7 @@ def c14(tier, rng):
     for k in range(n_cases(tier, 80, 2000)):
         out.append(walk(rng, rng.choice([10, 25, 50]) if tier == "quick" else rng.choice([20, 60, 200]),
                         {"streams": True, "hold": True, "dropctx_at_end": True, "fail": 0.1}, "walk%d" % k))
-    return out + r6("C14")
+    return out + r6("C14") + r7("C14")
 
 
 # ---- C15 ------------------------------------------------------------------------------------------
@@ -1740,7 +1740,7 @@ def c15(tier, rng):
         out.append(walk(rng, rng.choice([20, 50]) if tier == "quick" else rng.choice([50, 200]),
                         {"drops": True, "streams": True, "hold": k % 2 == 0, "fail": 0.2,
                          "rmax": rng.choice([None, 2, 4]), "no_k2": True}, "walk%d" % k))
-    return out + r6("C15")
+    return out + r6("C15") + r7("C15")
 
 
 # ---- C16 ------------------------------------------------------------------------------------------
@@ -1830,7 +1830,7 @@ def c16(tier, rng):
         # wmode must come first so that CONNECT is written under it
         script = " ; ".join(new)
         out.append(case("walk%d-m%d" % (k, mode), script, c["tags"] + ["mode%d" % mode]))
-    return out + r6("C16")
+    return out + r6("C16") + r7("C16")
 
 
 # ---- C17 ------------------------------------------------------------------------------------------
@@ -2030,7 +2030,7 @@ def c17(tier, rng):
         for i in (a, b2, c3):
             s.poll(i)
         out.append(case("resume-under-R%d" % rm2, s.script(), ["resume-rm"]))
-    return out + r6("C17")
+    return out + r6("C17") + r7("C17")
 
 
 # ---- round 6 --------------------------------------------------------------------------------------------------------------
@@ -2362,4 +2362,287 @@ def r6(pid):
             st.ev("markdisc 10"), st.ev("reconnect"), st.ev("connect sei=1000"), st.deliver(M.connack(1)), st.ev("run")
             st.deliver(M.puback(st.ops[b_]["pid"])), st.deliver(M.pubcomp(st.ops[c_]["pid"])), st.poll(b_), st.poll(c_)
             out.append(case("expired-then-run-again-%d" % sei, st.script(), ["run-again-expired"]))
+    return out
+
+
+# ---- round 7 --------------------------------------------------------------------------------------------------------------
+def r7(pid):
+    out = []
+    if pid in ("C05", "C10"):
+        # a publish refused for want of quota leaves no trace on the wire; the acknowledgements that follow belong to the others
+        for R in (1, 2):
+            st = S(connack_props=[(33, R)])
+            st.ev("clone 0 1")
+            x = [st.pub(q=1 + k % 2, payload=b"w%d" % k, handle=k % 2) for k in range(R)]
+            for i in x:
+                st.poll(i)
+            extra = [st.pub(q=1, payload=b"refused-1"), st.sub(b"s"), st.ping(), st.pub(q=2, payload=b"refused-2", handle=1), st.unsub(b"u")]
+            for i in extra:
+                st.poll(i), st.poll(i)
+            st.deliver(M.suback(st.ops[extra[1]]["pid"])), st.deliver(M.pingresp()), st.deliver(M.unsuback(st.ops[extra[4]]["pid"]))
+            for i in x:
+                st.deliver(M.puback(st.ops[i]["pid"]) if st.ops[i]["q"] == 1 else M.pubrec(st.ops[i]["pid"], 135)), st.freed()
+            for i in x + extra:
+                st.poll(i)
+            y = st.pub(q=1, payload=b"after")
+            st.poll(y), st.deliver(M.puback(st.ops[y]["pid"])), st.poll(y)
+            out.append(case("refused-for-quota-among-others-R%d" % R, st.script(), ["quota-silent"]))
+    if pid in ("C05", "C06"):
+        # acknowledgement keys: identifiers 256 and 65280 apart are different identifiers
+        for q in (1, 2):
+            for gap in (256, 512):
+                st = S()
+                slow = st.pub(q=q, payload=b"slow")
+                st.poll(slow)
+                st.ev("spin %d 1000 pub1 1" % (gap - 1))
+                st.pid_ctr = 1 + gap
+                late = st.pub(q=q, payload=b"late")
+                st.poll(late)
+                assert st.ops[late]["pid"] == st.ops[slow]["pid"] + gap
+                st.deliver(M.puback(st.ops[late]["pid"], 151) if q == 1 else M.pubrec(st.ops[late]["pid"], 135))
+                st.poll(slow), st.poll(late)
+                st.deliver(M.puback(st.ops[slow]["pid"]) if q == 1 else M.pubrec(st.ops[slow]["pid"]))
+                st.poll(slow), st.poll(late)
+                if q == 2:
+                    st.deliver(M.pubcomp(st.ops[slow]["pid"])), st.poll(slow)
+                out.append(case("identifiers-%d-apart-q%d" % (gap, q), st.script(), ["ids-apart"]))
+    if pid in ("C01", "C06"):
+        # requests submitted while no connection is up wait in the queue: they go out, in order, once the next connection runs
+        for where in ("before-reconnect", "before-connect"):
+            st = S()
+            a = st.pub(q=1, payload=b"first")
+            st.poll(a), st.deliver(M.puback(1)), st.poll(a), st.ev("eof")
+            if where == "before-connect":
+                st.ev("reconnect")
+            x = [st.pub(q=0, payload=b"queued-0"), st.pub(q=1, payload=b"queued-1"), st.ping()]
+            for i in x:
+                st.poll(i)
+            if where == "before-reconnect":
+                st.ev("reconnect")
+            st.ev("connect"), st.deliver(M.connack()), st.ev("run")
+            for i in x:
+                st.poll(i)
+            st.deliver(M.puback(st.ops[x[1]]["pid"])), st.deliver(M.pingresp())
+            for i in x:
+                st.poll(i)
+            out.append(case("queued-%s" % where, st.script(), ["queued-across"]))
+    if pid == "C07":
+        # one subscribe() with several filters, some refused: the stream serves the granted ones
+        for codes in ([135, 1], [0, 128], [2, 143, 0]):
+            st = S()
+            by = st.sub(b"bystander")
+            st.poll(by), st.deliver(M.suback(st.ops[by]["pid"])), st.poll(by), st.ev("tostream %d" % by)
+            a = st.sub(b"a", extra=" ".join("f=%s:0100" % hx(b"f%d" % k) for k in range(len(codes) - 1)))
+            st.poll(a), st.deliver(M.publish(b"f0", b"overtakes", 0, None, ps=[(11, 2)]))
+            st.deliver(M.suback(st.ops[a]["pid"], codes)), st.poll(a), st.ev("tostream %d" % a)
+            st.deliver(M.publish(b"f0", b"m1", 1, 9, ps=[(11, 2)])), st.deliver(M.publish(b"bystander", b"b1", 0, None, ps=[(11, 1)]))
+            st.deliver(M.publish(b"f1", b"m2", 2, 10, ps=[(11, 2)])), st.deliver(M.pubrel(10))
+            for _ in range(4):
+                st.ev("pollstream %d" % a)
+            st.ev("pollstream %d" % by), st.ev("pollstream %d" % by)
+            out.append(case("partly-refused-subscribe-%s" % "-".join(map(str, codes)), st.script(), ["partly-refused"]))
+    if pid in ("C07", "C09"):
+        # DUP=1 says "this may be a repetition", not "you have seen this": a QoS 2 PUBLISH with DUP=1 whose identifier is not
+        # awaiting release is a new message (the first copy was lost with the previous connection)
+        st = S(connect_opts="sei=1000")
+        a = st.sub(b"a")
+        st.poll(a), st.deliver(M.suback(1)), st.poll(a), st.ev("tostream %d" % a)
+        st.deliver(M.publish(b"a", b"first", 2, 5, ps=[(11, 1)])), st.deliver(M.pubrel(5))
+        st.deliver(M.publish(b"a", b"second", 2, 6, 1, ps=[(11, 1)])), st.deliver(M.publish(b"a", b"second", 2, 6, 1, ps=[(11, 1)])), st.deliver(M.pubrel(6))
+        st.deliver(M.publish(b"a", b"third", 1, 7, 1, ps=[(11, 1)])), st.deliver(M.publish(b"a", b"fourth", 2, 6, 1, ps=[(11, 1)]))
+        for _ in range(5):
+            st.ev("pollstream %d" % a)
+        out.append(case("dup-on-first-sight", st.script(), ["dup-first"]))
+    if pid == "C08":
+        # whatever legal text and properties the messages carry: a byte order mark at the start of a string, a user property
+        # followed by binary data / large integers / long strings
+        bom = "\ufeff".encode()
+        upx = (38, (b"k", b"v"))
+        st = S()
+        st.deliver(M.publish(bom + b"topic", b"x", 1, 0x2600)), st.deliver(M.publish(b"t", b"x", 2, 7, ps=[(3, bom + b"text/plain"), (8, bom + b"reply")]))
+        st.deliver(M.pubrel(7, 0, [(31, bom + b"done")], "long")), st.deliver(M.publish(b"t" + bom, b"y", 1, 8))
+        out.append(case("byte-order-mark-in-strings", st.script(), ["texts"]))
+        st = S()
+        st.deliver(M.publish(b"t", b"\xff", 1, 1, ps=[upx, (9, b"\xde\xad\xbe\xef")])), st.deliver(M.publish(b"t", b"a", 2, 2, ps=[upx, (2, 86400)]))
+        st.deliver(M.publish(b"t", b"b", 1, 3, ps=[upx, (11, 200)])), st.deliver(M.pubrel(2, 0, [upx, (31, b"r" * 130)], "long"))
+        st.deliver(M.publish(b"t", b"c", 2, 4, ps=[upx, (8, b"r" * 200), upx])), st.deliver(M.pubrel(4, 146, [upx, (31, b"r" * 255), upx], "long"))
+        st.deliver(M.publish(b"t", b"d", 1, 5))
+        out.append(case("user-property-not-last", st.script(), ["texts"]))
+    if pid == "C09":
+        # a refused connection attempt in between changes nothing for the session the broker still holds
+        for r in (137, 136):
+            st = S(connect_opts="sei=1000")
+            a = st.sub(b"a")
+            st.poll(a), st.deliver(M.suback(1)), st.poll(a), st.ev("tostream %d" % a)
+            st.deliver(M.publish(b"a", b"m1", 2, 5, ps=[(11, 1)])), st.ev("pollstream %d" % a)
+            st.ev("markdisc 5"), st.ev("reconnect"), st.ev("connect sei=1000"), st.deliver(M.connack(0, r))
+            st.ev("reconnect"), st.ev("connect sei=1000"), st.deliver(M.connack(1)), st.ev("run")
+            st.deliver(M.publish(b"a", b"m1", 2, 5, 1, ps=[(11, 1)])), st.deliver(M.pubrel(5)), st.deliver(M.publish(b"a", b"m2", 2, 5, ps=[(11, 1)]))
+            for _ in range(3):
+                st.ev("pollstream %d" % a)
+            out.append(case("refused-attempt-then-resume-%d" % r, st.script(), ["reconnect", "refused-attempt"]))
+    if pid == "C10":
+        # PUBREC 0x10 (no matching subscribers) is a success: the slot stays taken until the PUBCOMP
+        for R in (1, 2):
+            st = S(connack_props=[(33, R)])
+            x = [st.pub(q=2, payload=b"w%d" % k) for k in range(R)]
+            for i in x:
+                st.poll(i)
+            st.deliver(M.pubrec(1, 16)), st.poll(x[0])
+            y = st.pub(q=1, payload=b"beyond")
+            st.poll(y), st.poll(y)
+            st.deliver(M.pubcomp(1)), st.poll(x[0]), st.freed()
+            z = [st.pub(q=1, payload=b"z%d" % k) for k in range(2)]
+            for i in z:
+                st.poll(i), st.poll(i)
+            out.append(case("pubrec-16-keeps-slot-R%d" % R, st.script(), ["pubrec16"]))
+    if pid in ("C10", "C12"):
+        # the CONNACK that ends an enhanced authentication exchange announces limits like any other
+        for rounds in (1, 3):
+            for Mx, R in ((40, 2), (None, 1)):
+                cp = ([(39, Mx)] if Mx else []) + [(33, R)]
+                evs = ["connect am=6d ad=01"]
+                for k in range(rounds):
+                    evs += ["deliver " + hx(M.auth(24, [(21, b"m"), (22, bytes([7 + k]))])), "auth r=24 am=6d ad=%02x" % (2 + k)]
+                st = S(connack_props=cp)
+                st.evs = evs + ["deliver " + hx(M.connack(ps=cp)), "run"]
+                x = [st.pub(q=1, topic=b"t", payload=b"p" * (31 if Mx else 5)), st.pub(q=2, topic=b"t", payload=b"p" * (31 if Mx else 5)),
+                     st.pub(q=1, topic=b"t", payload=b"p" * (32 if Mx else 6)), st.pub(q=0, topic=b"t", payload=b"p" * 60), st.pub(q=1, payload=b"x")]
+                for i in x:
+                    st.poll(i), st.poll(i)
+                out.append(case("limits-after-%d-auth-rounds-M%s-R%d" % (rounds, Mx, R), st.script(), ["via-auth", "auth-limits"]))
+        # second connection of the same Context, its CONNACK arriving through authorize() and announcing nothing
+        st = S(connack_props=[(39, 30), (33, 1)])
+        a = st.pub(q=1, topic=b"t", payload=b"p" * 40)
+        st.poll(a), st.poll(a), st.ev("eof"), st.ev("reconnect")
+        st.ev("connect am=6d ad=01"), st.deliver(M.auth(24, [(21, b"m")])), st.ev("auth r=24 am=6d ad=02"), st.deliver(M.connack()), st.ev("run")
+        st.rmax, st.inflight = 65535, 0
+        x = [st.pub(q=1, topic=b"t", payload=b"p" * 40), st.pub(q=2, topic=b"t", payload=b"p" * 40)]
+        for i in x:
+            st.poll(i), st.poll(i)
+        out.append(case("limits-second-connection-through-authorize", st.script(), ["via-auth", "auth-limits", "reconnect"]))
+    if pid == "C11":
+        # which clones of the handle exist plays no part: 65535 handed out while a clone lives, the clone goes, the next ones follow
+        st = S()
+        st.ev("clone 0 1")
+        keep = st.pub(q=1, payload=b"keep", handle=1)
+        st.poll(keep)
+        st.ev("spin 65533 1000 pub1 1")
+        st.pid_ctr = 65535
+        last = st.pub(q=1, payload=b"last-of-the-cycle")
+        st.poll(last)
+        st.deliver(M.puback(1)), st.poll(keep), st.deliver(M.puback(65535)), st.poll(last), st.ev("drophandle 1")
+        # from here on handle 0 is the only one: its methods are called on it directly (startown), one operation at a time
+        n0 = len(st.evs)
+        b_ = st.sub(b"b")
+        st.poll(b_), st.deliver(M.suback(st.ops[b_]["pid"])), st.poll(b_)
+        c_ = st.unsub(b"c")
+        st.poll(c_), st.deliver(M.unsuback(st.ops[c_]["pid"])), st.poll(c_)
+        d_ = st.pub(q=1, payload=b"d")
+        st.poll(d_), st.deliver(M.puback(st.ops[d_]["pid"])), st.poll(d_)
+        st.evs[n0:] = [("startown " + e[6:]) if e.startswith("start ") else e for e in st.evs[n0:]]
+        out.append(case("last-clone-dropped-at-the-wrap", st.script(), ["clone-wrap"], release=False))
+        # every identifier from 1 to 65535 is used: one operation outstanding while 65534 others are allocated
+        st = S()
+        keep = st.sub(b"keep")
+        st.poll(keep)
+        st.ev("spin 65533 1000 unsub 1")
+        st.pid_ctr = 65535
+        last = st.pub(q=1, payload=b"the-65534th-other")
+        st.poll(last)
+        st.deliver(M.suback(1)), st.poll(keep)
+        nxt = st.pub(q=2, payload=b"next")
+        st.poll(nxt)
+        out.append(case("full-cycle-65534-others", st.script(), ["full-cycle"], release=False))
+    if pid == "C12":
+        # DISCONNECT is a packet like any other
+        for Mx, args in ((3, "r=0"), (4, "r=4"), (20, "r=4 rs=%s" % hx(b"r" * 30)), (30, "r=0 sei=5 up=6b:76 up=6b:77 rs=%s" % hx(b"going away for a while"))):
+            st = S(connack_props=[(39, Mx)])
+            d_ = st.disc(args)
+            st.poll(d_), st.poll(d_)
+            p_ = st.pub(q=0, topic=b"t", payload=b"")
+            st.poll(p_), st.poll(p_)
+            d2 = st.disc("r=0" if Mx >= 4 else "r=4")
+            st.poll(d2), st.poll(d2)
+            out.append(case("oversized-disconnect-M%d" % Mx, st.script(), ["disc-size"]))
+    if pid == "C13":
+        # several requests waiting when run() gets to them, the DISCONNECT among them: nothing after it, run() returns
+        for pos in (1, 2):
+            for q in (0, 1):
+                st = S()
+                st.ev("hold")
+                x = [st.pub(q=q, payload=b"before-%d" % k) for k in range(pos)]
+                for i in x:
+                    st.poll(i)
+                d_ = st.disc("r=0")
+                st.poll(d_)
+                y = [st.pub(q=q, payload=b"behind"), st.ping()]
+                for i in y:
+                    st.poll(i)
+                st.ev("release")
+                for i in x + [d_] + y:
+                    st.poll(i)
+                out.append(case("userdisc-queued-among-%d-q%d" % (pos, q), st.script(), ["disc-queued"]))
+        # AUTH in answer to a CONNECT that named a method and sent no data (server-first mechanisms)
+        for extra in ("am=6d", "am=6d ad=", "am=6d ad=01"):
+            out.append(case("challenge-%s" % extra.replace(" ", "_").replace("=", ""), "connect %s ; deliver %s" % (extra, hx(M.auth(24, [(21, b"m"), (22, b"\x01")]))),
+                            ["auth-method-only"]))
+    if pid == "C14":
+        # tens of thousands of operations after the Context is gone: each fails at once
+        st = S()
+        a = st.pub(q=1)
+        st.poll(a), st.deliver(M.puback(1)), st.poll(a), st.ev("dropctx")
+        st.ev("spin 66000 1000 pub1 0"), st.ev("spin 10 100000 sub 0")
+        c_ = case("many-operations-after-the-drop", st.script(), ["after-drop-many"], release=False)
+        c_["model"] = False          # 66000 operations left in the model's operation table are quadratic there; the monitor judges
+        out.append(c_)
+    if pid == "C15":
+        # streams dropped one after the other, each followed by a message for it (QoS 1 / 2 first): the others live on
+        for q in (1, 2):
+            st = S()
+            subs = [st.sub(b"s%d" % k) for k in range(4)]
+            for i in subs:
+                st.poll(i)
+            for i in subs:
+                st.deliver(M.suback(st.ops[i]["pid"]))
+            for i in subs:
+                st.poll(i), st.ev("tostream %d" % i)
+            pid_ = [20]
+
+            def msg(k, text, q_=q):
+                pid_[0] += 1
+                return M.publish(b"s", text, q_, pid_[0], ps=[(11, k + 1)])
+            st.ev("dropstream %d" % subs[0]), st.deliver(msg(0, b"for-dead-0")), st.deliver(msg(0, b"for-dead-0-again", 0) )
+            st.ev("dropstream %d" % subs[1]), st.deliver(msg(1, b"for-dead-1")), st.deliver(msg(2, b"for-live-2")), st.deliver(msg(3, b"for-live-3"))
+            st.ev("dropstream %d" % subs[2]), st.deliver(msg(2, b"for-dead-2")), st.deliver(msg(3, b"for-live-3-again"))
+            if q == 2:
+                for k in range(21, pid_[0] + 1):
+                    st.deliver(M.pubrel(k))
+            for _ in range(3):
+                st.ev("pollstream %d" % subs[3])
+            out.append(case("streams-dropped-in-turn-q%d" % q, st.script(), ["dropped-stream", "in-turn"]))
+    if pid == "C17":
+        # acknowledgements that overtake older handshakes take nothing but their own entry out of the queue
+        for order in ([2], [3, 1], [2, 3], [4], [3], [4, 2]):
+            st = S(connect_opts="sei=1000")
+            x = [st.pub(q=1 + k % 2, payload=b"m%d" % k) for k in range(5)]
+            for i in x:
+                st.poll(i)
+            for k in order:
+                i = x[k]
+                st.deliver(M.puback(st.ops[i]["pid"]) if st.ops[i]["q"] == 1 else M.pubrec(st.ops[i]["pid"], 128)), st.poll(i)
+            st.ev("markdisc 5"), st.ev("reconnect"), st.ev("connect sei=1000"), st.deliver(M.connack(1)), st.ev("run")
+            for i in x:
+                st.poll(i)
+            out.append(case("overtaking-acks-%s" % "-".join(map(str, order)), st.script(), ["overtaking"]))
+        # the Session Expiry Interval in force is the CONNACK's when it names one - longer than asked for, too
+        for csei, asei, elapsed in ((60, 3600, 100), (0, 500, 100), (60, 4294967295, 100000), (3600, 60, 100), (60, 3600, 4000)):
+            st = S(connect_opts=("sei=%d" % csei) if csei else "")
+            a, b_ = st.pub(q=1, payload=b"A"), st.pub(q=2, payload=b"B")
+            st.poll(a), st.poll(b_)
+            st.ev("markdisc %d" % 1), st.ev("reconnect"), st.ev(("connect sei=%d" % csei) if csei else "connect"), st.deliver(M.connack(1, 0, [(17, asei)])), st.ev("run")
+            st.poll(a), st.poll(b_)
+            st.ev("markdisc %d" % elapsed), st.ev("reconnect"), st.ev(("connect sei=%d" % csei) if csei else "connect"), st.deliver(M.connack(1, 0, [(17, asei)])), st.ev("run")
+            st.poll(a), st.poll(b_), st.deliver(M.puback(1)), st.deliver(M.pubrec(2)), st.poll(a), st.poll(b_)
+            out.append(case("connack-interval-%d-%d-%d" % (csei, asei, elapsed), st.script(), ["connack-sei"]))
     return out
